@@ -85,6 +85,10 @@ func (m *reactModel) answer(ctx context.Context, in []*schema.Message, opts []mo
 		return &schema.Message{Role: schema.Assistant, Content: "answer(" + contents(in) + ")"}
 	}
 	who := tagIn(last.Content)
+	if who == "" {
+		// callers that share one input: the caller is known from the per-call model option only
+		who = model.GetImplSpecificOptions(&modelTag{}, opts...).Tag
+	}
 	name := "echo"
 	if m.hasFinal && (who == "callerA" || who == "callerC") {
 		name = "final"
@@ -161,6 +165,43 @@ func buildReact(returnDirectly bool) (*Object, error) {
 				return drainMsg(sr)
 			}
 			m, err := ag.Generate(ctx, in, opt)
+			if err != nil {
+				return "", err
+			}
+			return renderMsg(m), nil
+		}}, nil
+}
+
+// buildReactShared: like react, but every caller passes the SAME input slice (one common question, spare
+// capacity behind it). The input belongs to the callers; a run must not keep its history in it.
+func buildReactShared() (*Object, error) {
+	cfg := &react.AgentConfig{
+		ToolCallingModel: &reactModel{},
+		ToolsConfig:      compose.ToolsNodeConfig{Tools: []tool.BaseTool{&recTool{"echo"}}},
+		MaxStep:          12,
+	}
+	ag, err := react.NewAgent(context.Background(), cfg)
+	if err != nil {
+		return nil, err
+	}
+	shared := make([]*schema.Message, 1, 8)
+	shared[0] = schema.UserMessage("common question")
+	return &Object{Kind: "react-shared-input", Paradigms: []string{"invoke", "stream"},
+		call: func(ctx context.Context, r *Rec, paradigm string) (string, error) {
+			tg := r.Caller
+			opt := agent.WithComposeOptions(
+				compose.WithCallbacks(Handler(r)),
+				compose.WithChatModelOption(model.WrapImplSpecificOptFn(func(o *modelTag) { o.Tag = tg })),
+				compose.WithToolsNodeOption(compose.WithToolOption(tool.WrapImplSpecificOptFn(func(o *toolTag) { o.Tag = tg }))),
+			)
+			if paradigm == "stream" {
+				sr, err := ag.Stream(ctx, shared, opt)
+				if err != nil {
+					return "", err
+				}
+				return drainMsg(sr)
+			}
+			m, err := ag.Generate(ctx, shared, opt)
 			if err != nil {
 				return "", err
 			}
